@@ -73,6 +73,7 @@ const (
 	kRTP = iota
 	kRTCP
 	kAdv
+	kUnbind // one of the two bindings of an SSRC (Dir says which) is unbound; the SSRC stays bound through the other
 )
 
 // op is one symbol of an alphabet.
@@ -100,6 +101,9 @@ func (o op) String() string {
 			s += e.String()
 		}
 		return s + "]"
+	}
+	if o.Kind == kUnbind {
+		return fmt.Sprintf("unbind-%s-stream(%s)", dirName[o.Dir], ssrcName[o.Via])
 	}
 	return fmt.Sprintf("advance(%v)", o.D)
 }
@@ -289,6 +293,14 @@ func families(tier string) []family {
 		rtcpOp(dirOut, elem{T: eRRTR}, elem{T: eNACK, X: 0}),
 		rtcpOp(dirOut, elem{T: eSR, X: 0}, elem{T: eFIR2}),
 		adv(advLong))
+	// F5: every SSRC is bound twice (as a local and as a remote stream); one of the two bindings is unbound and
+	// the other keeps carrying traffic: the recount goes on (traffic through an unbound stream is not generated)
+	ub := []op{
+		rtpS(dirOut, 0, 0, 0), rtpS(dirOut, 1, 0, 1), rtpS(dirIn, 0, 0, 1), rtpS(dirIn, 1, 2, 0),
+		{Kind: kUnbind, Dir: dirIn, Via: 0}, {Kind: kUnbind, Dir: dirOut, Via: 1},
+		rtcpOp(dirIn, elem{T: eRR, X: 0}), rtcpOp(dirIn, elem{T: eNACK, X: 0}), rtcpOp(dirOut, elem{T: ePLI, X: 1}), rtcpOp(dirOut, elem{T: eSR, X: 0}),
+	}
+	fs = append(fs, family{Name: "unbind-one-of-two-bindings", Start: 65534, Alpha: ub, Depth: pick(thorough, 6, 5), Shards: pick(thorough, 4, 2), Dedup: true})
 	fs = append(fs, family{Name: "mixed", Start: 65535, Alpha: mix, Depth: pick(thorough, 5, 4), Shards: pick(thorough, 40, 10), Dedup: true})
 	return fs
 }
